@@ -294,6 +294,7 @@ func c08Round(c *runner.Ctx, idx uint64) {
 		}
 	}
 	c.Sample(map[string]interface{}{"round": idx, "goroutines": N, "runs_per_goroutine": M, "programs": len(pool), "example_program": pool[0].src})
+	c08Extra(c, r, N)
 }
 
 func c08RaceReports(c *runner.Ctx) {
